@@ -139,7 +139,7 @@ func namesOf(t []tok) []string {
 	return ns
 }
 
-var segAlpha = []string{"a", "b", "ab", "abc", ":x", ":y", "a:z", "b:z", "ab:w"}
+var segAlpha = []string{"a", "b", "ab", "abc", ":x", ":y", "a:z", "b:z", "ab:w", "A", "Ab", "aB", "ABC"}
 
 func genRoute(r *mon.Rand) string {
 	n := 1 + r.Intn(4)
